@@ -121,17 +121,26 @@ def one_run(case, row, conf, fakes=None, seed=0):
                   max_interval=cm.interval_arg(I, 0), max_distance=cm.distance_arg(k, N, 0),
                   skip_file_errors=bad is not None)
         col = Collocator()
+        from typhon.files.fileset import NoFilesError
+        nofiles = False
         with warnings.catch_warnings():
             warnings.simplefilter("ignore")
-            if out is None:
-                results = list(col.collocate_filesets([fa, fb], **kw))
-                got, spans = harvest(results)
-            else:
-                names = list(col.collocate_filesets([fa, fb], output=out, **kw))
-                datasets = [out.read(n) for n in sorted(set(names))]
-                got, _ = harvest(datasets)
-                spans = [os.path.basename(n) for n in names]
+            try:
+                if out is None:
+                    results = list(col.collocate_filesets([fa, fb], **kw))
+                    got, spans = harvest(results)
+                else:
+                    names = list(col.collocate_filesets([fa, fb], output=out, **kw))
+                    datasets = [out.read(n) for n in sorted(set(names))]
+                    got, _ = harvest(datasets)
+                    spans = [os.path.basename(n) for n in names]
+            except NoFilesError:
+                # FileSet.find's documented way of saying "this fileset has no file in the period": accepted as
+                # "nothing to report" -- judged only against a non-empty expectation
+                got, spans, nofiles = [], [], True
         exp = sorted([a, b] for a, b, _, _ in E)
+        if nofiles and bad is None:
+            return {"got": [], "expected": exp, "events": world.log if world else [], "spans": [], "nofiles": True}
         if bad is not None:
             side = bad[0]
             must = [p for p in exp if (p[0] if side == "a" else p[1]) not in removed]
@@ -146,6 +155,12 @@ def judge(col, case, row, conf, res, label):
     rep = {"abstract": {"N": N, "P": case["P"], "S": case["S"], "I": row[0], "k": row[1], "ws": row[2], "we": row[3]},
            "concrete": conf, "expected": res["expected"], "observed": res["got"]}
     got, exp = res["got"], res["expected"]
+    if res.get("nofiles"):
+        if exp:
+            col.violation(label + "-NoFilesError-although-collocations-exist", rep)
+        else:
+            col.bump("runs_ending_in_NoFilesError_with_nothing_to_report")
+        return
     if "must" in res:
         # skip_file_errors: nothing invented, nothing duplicated, everything not involving the bad file is there
         ok = all(p in exp for p in got) and len(set(map(tuple, got))) == len(got) and all(p in got for p in res["must"])
